@@ -26,6 +26,23 @@ def buggy_first_brace(s):
         if ch == "{":
             return i + 1
     return -1
+
+
+def bump(x):
+    return x + 1
+
+
+def grow(box):
+    box.append(1)
+    box.append(2)
+    n = bump(len(box))
+    box.append(n)
+    return box
+
+
+def shadow(a):
+    result = a + 1
+    return result + 1
 '''
 
 
@@ -49,9 +66,21 @@ def main():
                    ensures=ens, loops={0: spec})
         C.contract("T.buggy", file="hed/sample.py", func="buggy_first_brace", params={"s": "Str"}, returns="Int", enc="array",
                    ensures=ens, loops={0: spec})
+        # old(...) keeps denoting the ENTRY state after a call answered by a callee contract (regression: it meant "at the last call")
+        C.contract("T.bump", file="hed/sample.py", func="bump", params={"x": "Int"}, returns="Int", ensures={"one_more": "result == x + 1"})
+        C.contract("T.grow_true", file="hed/sample.py", func="grow", params={"box": "List[Int]"}, returns="List[Int]",
+                   ghost={"alias_ok": True}, modifies=["box"], ensures={"three_more": "len(box) == len(old(box)) + 3"})
+        C.contract("T.grow_false", file="hed/sample.py", func="grow", params={"box": "List[Int]"}, returns="List[Int]",
+                   ghost={"alias_ok": True, "not_at_call_sites": True}, modifies=["box"], ensures={"one_more": "len(box) == len(old(box)) + 1"})
+        # `result` in a clause is the value handed back, not a local of that name
+        C.contract("T.shadow_true", file="hed/sample.py", func="shadow", params={"a": "Int"}, returns="Int", ensures={"two_more": "result == a + 2"})
+        C.contract("T.shadow_false", file="hed/sample.py", func="shadow", params={"a": "Int"}, returns="Int",
+                   ghost={"not_at_call_sites": True}, ensures={"one_more": "result == a + 1"})
         eng = Engine(repo=d, timeout_ms=5000)
         ok = True
-        for cid, expect_all_unsat in (("T.count_up", True), ("T.first_brace", True), ("T.buggy", False)):
+        cases = (("T.count_up", True), ("T.first_brace", True), ("T.buggy", False), ("T.grow_true", True), ("T.grow_false", False),
+                 ("T.shadow_true", True), ("T.shadow_false", False))
+        for cid, expect_all_unsat in cases:
             res = eng.verify(C.CONTRACTS[cid])
             verdicts = []
             for ob in res["obligations"]:
@@ -68,7 +97,7 @@ def main():
             print(f"selftest {cid}: {len(verdicts)} obligations, {'proved' if all_unsat else 'refuted' if refuted else 'undecided'}"
                   f" -> {'ok' if good else 'UNEXPECTED'}")
             ok = ok and good
-        for cid in ("T.count_up", "T.first_brace", "T.buggy"):
+        for cid in [c for c, _ in cases] + ["T.bump"]:
             del C.CONTRACTS[cid]
         return 0 if ok else 1
     finally:
